@@ -3,6 +3,7 @@ package pool
 
 import (
 	"context"
+	"errors"
 	"fmt"
 	"sync"
 	"testing"
@@ -20,12 +21,13 @@ var closedCh = func() chan struct{} { c := make(chan struct{}); close(c); return
 
 // fconn is a fake connection whose state the harness controls.
 type fconn struct {
-	id      int
-	mu      sync.Mutex
-	closed  chan struct{}
-	closes  int
-	blocked bool
-	blockCh chan struct{}
+	id        int
+	failClose bool // Close does its work and reports an error, as a connection whose peer is gone does
+	mu        sync.Mutex
+	closed    chan struct{}
+	closes    int
+	blocked   bool
+	blockCh   chan struct{}
 }
 
 func newConn(id int) *fconn {
@@ -39,8 +41,14 @@ func (f *fconn) Close() error {
 	if f.closes == 1 {
 		close(f.closed)
 	}
+	if f.failClose {
+		return errClose
+	}
 	return nil
 }
+
+var errClose = errors.New("fconn: close reported an error")
+
 func (f *fconn) Closes() int             { f.mu.Lock(); defer f.mu.Unlock(); return f.closes }
 func (f *fconn) Closed() <-chan struct{} { return f.closed }
 func (f *fconn) Unblocked() <-chan struct{} {
@@ -69,6 +77,8 @@ type c15Case struct {
 	KeyCapacity int
 	Expiry      int // 0 none, 1 one hour (never fires), 2 immediate (fires at once, parked at its first point)
 	Ops         []poolOp
+	// CloseErrEvery: every k-th connection's Close reports an error (0 = none does)
+	CloseErrEvery int
 }
 
 var keys = []string{"a", "b", "c"}
@@ -97,6 +107,7 @@ func runC15(c c15Case) (r pbt.Result) {
 		r.Detail = fmt.Sprintf("step %d of %+v", i, c)
 	}
 	evictions, expiryTouched := 0, false
+	closedAll := 0
 	expectArrivals := 0
 	waitArrival := func() bool {
 		// a 1ns timer fires on its own goroutine: wait (bounded) until the callback has parked
@@ -171,6 +182,7 @@ func runC15(c c15Case) (r pbt.Result) {
 				key = keyOf[cn.id]
 			} else {
 				cn = newConn(len(all))
+				cn.failClose = c.CloseErrEvery > 0 && len(all)%c.CloseErrEvery == 0
 				all = append(all, cn)
 				keyOf[cn.id] = key
 			}
@@ -252,6 +264,13 @@ func runC15(c c15Case) (r pbt.Result) {
 			}
 		case "closeall":
 			_ = p.Close()
+			if walked, _, _, _ := p.VerifCounts(); walked != 0 {
+				// Close closes every cached connection; none of them may stay cached (whatever their Close reported)
+				fail(i, "the pool still caches connections after Pool.Close")
+				r.Detailf("walked=%d", walked)
+				return
+			}
+			closedAll++
 		}
 		syncClosed()
 		if !check(i) {
@@ -294,6 +313,12 @@ func runC15(c c15Case) (r pbt.Result) {
 	if evictions > 0 {
 		r.Label("eviction")
 	}
+	if closedAll > 0 {
+		r.Label("pool_closed_mid_history")
+	}
+	if c.CloseErrEvery > 0 {
+		r.Label("connections_whose_close_reports_an_error")
+	}
 	if expiryTouched {
 		r.Label("expiry_released_mid_history")
 	}
@@ -313,10 +338,11 @@ var genPoolOp = rapid.Custom(func(t *rapid.T) poolOp {
 
 func genC15(t *rapid.T) c15Case {
 	return c15Case{
-		Capacity:    rapid.SampledFrom([]int{-1, 0, 1, 2, 3}).Draw(t, "cap"),
-		KeyCapacity: rapid.SampledFrom([]int{-1, 0, 1, 2}).Draw(t, "keycap"),
-		Expiry:      rapid.SampledFrom([]int{0, 1, 2, 2}).Draw(t, "expiry"),
-		Ops:         rapid.SliceOfN(genPoolOp, 1, 30).Draw(t, "ops"),
+		Capacity:      rapid.SampledFrom([]int{-1, 0, 1, 2, 3}).Draw(t, "cap"),
+		KeyCapacity:   rapid.SampledFrom([]int{-1, 0, 1, 2}).Draw(t, "keycap"),
+		Expiry:        rapid.SampledFrom([]int{0, 1, 2, 2}).Draw(t, "expiry"),
+		Ops:           rapid.SliceOfN(genPoolOp, 1, 30).Draw(t, "ops"),
+		CloseErrEvery: rapid.SampledFrom([]int{0, 0, 1, 2, 3}).Draw(t, "closeerr"),
 	}
 }
 
